@@ -25,6 +25,7 @@ func runC14(c *core.Ctx) {
 	h.unlinkBeforeRemove("C14.6b unlink-before-remove")
 	c.Clause("C14.7 no error of a file, mapping or segment operation inside the log package is dropped (a failed flush must not be reported as a completed commit)")
 	h.storageErrorsNotLost("C14.7 storage-errors")
+	h.dirListingLiteral("C14.8 dir-listing")
 }
 
 func runC13(c *core.Ctx) {
